@@ -103,13 +103,21 @@ class PandasIndexFeaturesMixin:
             **{k: 'nearest' for k in as_list(nearest_)},
         }  # fmt: skip
 
-        # Use the base class version of `reindex()` to alter the `span`...
-        reindexed = super().reindex(span=span)
+        # Use the base class version of `reindex()` to alter the `span` (and
+        # fill new periods with values that conform to each variable's dtype)...
+        reindexed = super().reindex(
+            span=span, fill_value=fill_value, strict=strict, **fill_values
+        )
 
         # ...then adjust the values using the `pandas` `Series.reindex()`
         # method
         for name in reindexed.names:
             fill_method = methods.get(name, method)
+
+            # No `pandas` filling method: nothing to add to the base class result
+            # (whereas NaNs from `pandas` would corrupt int, bool and str variables)
+            if fill_method is None:
+                continue
 
             fill_limit = None
             fill_tolerance = None
